@@ -164,6 +164,50 @@ def _candidates(plan):
                     c = P(plan)
                     c["spec"]["groups"][gi]["name"] = f"g{gi}"
                     yield f"plain name for group {gi}", c
+    if spec is not None and spec.get("stub") is not None:
+        st = spec["stub"]
+        if len(st["groups"]) > 1:
+            for gi, g in enumerate(st["groups"]):
+                c = P(plan)
+                c["spec"]["stub"]["groups"] = [x for x in st["groups"] if x != g]
+                for k in c["spec"]["stub"]["values"]:
+                    c["spec"]["stub"]["values"][k].pop(g, None)
+                for ph in c["phases"]:
+                    for sess in ph["sessions"]:
+                        sess.pop("spec_variant", None)
+                yield f"drop stub group {gi}", c
+        if len(st["keys"]) > 1:
+            for ki, key in enumerate(st["keys"]):
+                c = P(plan)
+                c["spec"]["stub"]["keys"] = [x for x in st["keys"] if x != key]
+                for k in c["spec"]["stub"]["values"]:
+                    for g in c["spec"]["stub"]["values"][k]:
+                        c["spec"]["stub"]["values"][k][g].pop(key, None)
+                yield f"drop stub key {ki}", c
+        for gi, g in enumerate(st["groups"]):
+            if g != f"g{gi}" and f"g{gi}" not in st["groups"]:
+                c = P(plan)
+                c["spec"]["stub"]["groups"][gi] = f"g{gi}"
+                for k in c["spec"]["stub"]["values"]:
+                    c["spec"]["stub"]["values"][k][f"g{gi}"] = c["spec"]["stub"]["values"][k].pop(g)
+                yield f"plain name for stub group {gi}", c
+        for k in sorted(st["values"]):
+            for g in st["values"][k]:
+                for m, v in st["values"][k][g].items():
+                    if v != ["i", 1]:
+                        c = P(plan)
+                        c["spec"]["stub"]["values"][k][g][m] = ["i", 1]
+                        yield f"stub value {k}/{g}/{m}=1", c
+        if spec.get("save_group_times"):
+            c = P(plan)
+            c["spec"]["save_group_times"] = False
+            yield "stub no group times", c
+    for i, ph in enumerate(phases):
+        for j, sess in enumerate(ph["sessions"]):
+            if sess.get("spec_variant"):
+                c = P(plan)
+                c["phases"][i]["sessions"][j].pop("spec_variant")
+                yield f"no spec variant in {i}.{j}", c
     # inputs: all the same tiny one
     if plan.get("inputs") and spec is not None and spec.get("stub") is None and spec.get("groups") is None:
         if any(v != SIMPLE_INPUT for v in plan["inputs"].values()):
